@@ -37,15 +37,21 @@ def trace_path(ad, cfg, tier, seed, with_leaves):
     return os.path.join(d, f"{ad.name}-{cfg['id']}-{tier}-{seed}-{int(with_leaves)}.ndjson")
 
 
-def gc_cache(keep=3):
+def gc_cache(max_age_s=5400):
+    """Remove trace-cache directories not touched for 90 minutes (other runs may be using recent ones)."""
+    import shutil
+
     root = os.path.join(CACHE, "traces")
     if not os.path.isdir(root):
         return
-    ds = sorted((os.path.getmtime(os.path.join(root, d)), d) for d in os.listdir(root))
-    import shutil
-
-    for _, d in ds[:-keep]:
-        shutil.rmtree(os.path.join(root, d), ignore_errors=True)
+    now = time.time()
+    for d in os.listdir(root):
+        p = os.path.join(root, d)
+        try:
+            if now - os.path.getmtime(p) > max_age_s:
+                shutil.rmtree(p, ignore_errors=True)
+        except OSError:
+            pass
 
 
 def _record(job):
